@@ -261,7 +261,17 @@ func obligationAsserts(fr *FuncResult, o *Obligation) []*Term {
 	}
 	asserts = append(asserts, fr.Assumes[:n]...)
 	asserts = append(asserts, o.PC, skolemizeNegGoal(o.Goal))
-	return asserts
+	// terms are hash-consed: drop repeated assertions (the same fact is often assumed at every use)
+	seen := map[*Term]bool{}
+	out := asserts[:0:0]
+	for _, a := range asserts {
+		if a == nil || seen[a] || (a.IsConst && a.B) {
+			continue
+		}
+		seen[a] = true
+		out = append(out, a)
+	}
+	return out
 }
 
 type concrete struct {
